@@ -44,6 +44,8 @@ func runC05(c *Collector, r *Rng, thorough bool) {
 		{"DSign1U", "8444a1054101a1064102f64100"}, {"DSignature", "8344a1054101a10641024100"},
 		{"DSignMsg", "d8628444a1054101a1064102f6818340a04100"}, {"DSignMsg", "d8628440a0f6818344a1064101a10541024100"},
 		{"DSign1", "d28440a1078344a1054101a10641024100f64100"}, {"DSign1", "d28440a107818344a1054101a10641024100f64100"},
+		// null / undefined where a COSE_Signature is expected
+		{"DSignMsg", "d8628440a043666f6f81f6"}, {"DSignMsg", "d8628440a043666f6f828340a04101f7"}, {"DSignMsg", "d8628440a043666f6f82f68340a04101"},
 		// fixed (F10): a tagged item is not a countersignature list
 		{"DUnprot", "a107d862818340a04101"}, {"DUnprot", "a107c6818340a04101"}, {"DUnprot", "a10bd862818340a04101"},
 		// content type / typ text rules
